@@ -39,11 +39,14 @@ pub struct HtmlTokOpts {
     pub profile: bool,
     pub initial_state: Option<HState>,
     pub last_start_tag: Option<String>,
+    /// call Tokenizer::set_plaintext_state() before the first feed (the public way for an embedder to
+    /// switch to PLAINTEXT), instead of / on top of `initial_state`
+    pub set_plaintext_first: bool,
 }
 
 impl Default for HtmlTokOpts {
     fn default() -> Self {
-        HtmlTokOpts { exact_errors: false, discard_bom: true, profile: false, initial_state: None, last_start_tag: None }
+        HtmlTokOpts { exact_errors: false, discard_bom: true, profile: false, initial_state: None, last_start_tag: None, set_plaintext_first: false }
     }
 }
 
@@ -75,6 +78,9 @@ pub struct TokRun {
 pub fn run_html_tokenizer(chunks: &[String], opts: &HtmlTokOpts, policy: &Policy, record_states: bool) -> TokRun {
     let sink = RecSink::new(policy.clone());
     let tok = Tokenizer::new(sink, opts.to_real());
+    if opts.set_plaintext_first {
+        tok.set_plaintext_state();
+    }
     let q = BufferQueue::default();
     let mut feeds = Vec::new();
     let mut suspend_states = Vec::new();
@@ -122,6 +128,9 @@ pub struct HtmlOpts {
     /// fragment context: (namespace uri, local name, attributes (name,value))
     pub context: Option<(String, String, Vec<(String, String)>)>,
     pub context_allows_scripting: bool,
+    /// the sink's answer to allow_declarative_shadow_roots (MSink's attach_declarative_shadow always
+    /// fails, so the tree must come out as without shadow roots)
+    pub allow_shadow: bool,
 }
 
 impl Default for HtmlOpts {
@@ -135,6 +144,7 @@ impl Default for HtmlOpts {
             quirks: html5ever::interface::QuirksMode::NoQuirks,
             context: None,
             context_allows_scripting: true,
+            allow_shadow: false,
         }
     }
 }
@@ -151,7 +161,7 @@ impl HtmlOpts {
     }
     pub fn describe(&self) -> String {
         format!(
-            "ctx={:?} scripting={} srcdoc={} drop_doctype={} quirks={:?} exact=({},{}) bom={} profile={}",
+            "ctx={:?} scripting={} srcdoc={} drop_doctype={} quirks={:?} exact=({},{}) bom={} profile={} shadow={}",
             self.context.as_ref().map(|c| format!("{}:{}{:?}", short_ns(&c.0), c.1, c.2)),
             self.scripting,
             self.iframe_srcdoc,
@@ -160,7 +170,8 @@ impl HtmlOpts {
             self.tok.exact_errors,
             self.tb_exact_errors,
             self.tok.discard_bom,
-            self.tok.profile
+            self.tok.profile,
+            self.allow_shadow
         )
     }
 }
@@ -249,7 +260,8 @@ pub fn run_html_parse_scripted(
     on_script: &mut dyn FnMut(&BufferQueue, u32),
     script_seed: Option<u64>,
 ) -> ParseRun {
-    let sink = MSink::new();
+    let mut sink = MSink::new();
+    sink.allow_shadow = opts.allow_shadow;
     let tok = make_html_parser(sink, opts);
     let q = BufferQueue::default();
     let mut feeds = Vec::new();
